@@ -1177,3 +1177,53 @@ MODELS_NORM = [(re.compile(r'IndexMap::<String, .*>::insert'), slotmap_insert), 
                (re.compile(r'<IndexMap<String, Exports> as Default>::default'), slotmap_default_cap),
                (re.compile(r'OccupiedEntry::<.*>::(get_mut|into_mut)'), occupied_get_mut), (re.compile(r'VacantEntry::<.*>::insert'), vacant_insert),
                (re.compile(r'Entry::<.*String, .*>::or_insert_with::<.*'), indexmap_or_insert_with)] + MODELS_NORM
+
+# ------------------------------------------------------------------ comparison family (ordered atoms, instants, integers) and Ordering helpers
+def _scalar(eng, x):
+    while isinstance(x, Ptr): x = eng.load(x)
+    if isinstance(x, UrlV): return x.id
+    while isinstance(x, Agg) and len(x.f) == 1: x = x.f[0]
+    if isinstance(x, UrlV): return x.id
+    if z3.is_expr(x): return x
+    raise Unsupported(f'comparison of {x!r}')
+def ord_cmp_op(eng, c, a, g):
+    x, y = _scalar(eng, a[0]), _scalar(eng, a[1])
+    op = re.search(r'::(lt|le|gt|ge|eq|ne)$', c).group(1)
+    lt, eq = ULT(x, y), EQ(x, y)
+    return {'lt': lt, 'le': OR(lt, eq), 'gt': AND(NOT(lt), NOT(eq)), 'ge': NOT(lt), 'eq': eq, 'ne': NOT(eq)}[op]
+def ord_cmp(eng, c, a, g):
+    x, y = _scalar(eng, a[0]), _scalar(eng, a[1])
+    return EnumV(IF(ULT(x, y), BV(255, 8), IF(EQ(x, y), BV(0, 8), BV(1, 8))), {})
+def ordering_pred(eng, c, a, g):
+    o = deref_val(eng, a[0]); t = o.tag
+    lt, eq, gt = EQ(t, BV(255, 8)), EQ(t, BV(0, 8)), EQ(t, BV(1, 8))
+    return {'is_lt': lt, 'is_le': OR(lt, eq), 'is_gt': gt, 'is_ge': OR(gt, eq), 'is_eq': eq, 'is_ne': NOT(eq)}[c.split('::')[-1]]
+def ordering_then_with(eng, c, a, g):
+    o = a[0]; is_eq = EQ(o.tag, BV(0, 8))
+    if z3.is_false(is_eq): return o
+    r = eng.call_closure(a[1], [], AND(g, is_eq))
+    return EnumV(IF(is_eq, r.tag, o.tag), {})
+def ordering_then(eng, c, a, g):
+    o = a[0]; return EnumV(IF(EQ(o.tag, BV(0, 8)), a[1].tag, o.tag), {})
+def ordering_reverse(eng, c, a, g):
+    t = a[0].tag; return EnumV(IF(EQ(t, BV(255, 8)), BV(1, 8), IF(EQ(t, BV(1, 8)), BV(255, 8), BV(0, 8))), {})
+def int_from(eng, c, a, g):
+    m = re.match(r'<(\w+) as From<(\w+)>>::from', c)
+    info = eng.int_info(m.group(1)); v = a[0]
+    if z3.is_bool(v): return IF(v, BV(1, info[0]), BV(0, info[0]))
+    src = eng.int_info(m.group(2))
+    return fit(v, info[0], bool(src and src[1]))
+def ord_max_min(eng, c, a, g):
+    x, y = _scalar(eng, a[0]), _scalar(eng, a[1])
+    pick_y = ULT(x, y) if c.endswith('max') else ULT(y, x)
+    return ite(pick_y, a[1], a[0])
+_CMP = [
+    (R(r'<&*(Version|DateTime<Utc>|NewestDependencyDate|usize|u64|u32|u8) as PartialOrd(<.*>)?>::(lt|le|gt|ge)'), ord_cmp_op),
+    (R(r'<&*(Version|DateTime<Utc>|usize|u64|u32|u8) as PartialEq(<.*>)?>::(eq|ne)'), ord_cmp_op),
+    (R(r'<&*(Version|DateTime<Utc>) as (Ord|PartialOrd)>::(cmp)'), ord_cmp),
+    (R(r'Ordering::(is_lt|is_le|is_gt|is_ge|is_eq|is_ne)'), ordering_pred),
+    (R(r'Ordering::then_with::<.*'), ordering_then_with), (R(r'Ordering::then'), ordering_then), (R(r'Ordering::reverse'), ordering_reverse),
+    (R(r'<(usize|u64|u32|u16|u8|isize|i64|i32) as From<(bool|u8|u16|u32|u64|usize)>>::from'), int_from),
+    (R(r'<&*(Version|usize|u64) as Ord>::(max|min)'), ord_max_min),
+]
+MODELS_NORM = [(re.compile(norm_path(p.pattern)), f) for p, f in _CMP] + MODELS_NORM
